@@ -137,22 +137,29 @@ func (c *callStateCache) get(callID string, auth *AuthContext) *resolvedCall {
 	return entry.call
 }
 
-func (c *callStateCache) put(callID string, auth *AuthContext, call *resolvedCall) {
+// put stores a resolved call. tokenExpiry is the instant the call token the
+// entry stands in for stops being accepted; the entry never outlives it, so
+// a hit can only ever answer what opening that token would still answer.
+func (c *callStateCache) put(callID string, auth *AuthContext, call *resolvedCall, tokenExpiry time.Time) {
 	if c == nil || c.max <= 0 {
 		return
 	}
 	key := callID + "\x00" + callStateIdentity(auth)
+	expiresAt := time.Now().Add(c.ttl)
+	if tokenExpiry.Before(expiresAt) {
+		expiresAt = tokenExpiry
+	}
 	c.mu.Lock()
 	defer c.mu.Unlock()
 	if el, ok := c.entries[key]; ok {
 		el.Value.(*callStateEntry).call = call
-		el.Value.(*callStateEntry).expiresAt = time.Now().Add(c.ttl)
+		el.Value.(*callStateEntry).expiresAt = expiresAt
 		c.order.MoveToFront(el)
 		return
 	}
 	el := c.order.PushFront(&callStateEntry{
 		key:       key,
-		expiresAt: time.Now().Add(c.ttl),
+		expiresAt: expiresAt,
 		call:      call,
 	})
 	c.entries[key] = el
@@ -412,6 +419,12 @@ func (h *HttpServer) openToken(version byte, token []byte, aad []byte, out inter
 	return nil
 }
 
+// tokenExpiry is the last instant at which checkTokenAge still accepts a
+// token created at createdAt.
+func (h *HttpServer) tokenExpiry(createdAt int64) time.Time {
+	return time.Unix(createdAt, 0).Add(h.tokenTTL)
+}
+
 // checkTokenAge enforces the TTL after authenticity has been established.
 func (h *HttpServer) checkTokenAge(createdAt int64) error {
 	age := time.Since(time.Unix(createdAt, 0))
@@ -451,7 +464,7 @@ func (h *HttpServer) packCallToken(callID string, outputSchema *arrow.Schema, au
 	}
 	// Warm the cache with the values we already hold, so this stream's first
 	// continuation does not have to open the token it was just handed.
-	h.callStates.put(callID, auth, &resolvedCall{SchemaIPC: data.SchemaIPC, StreamID: streamID})
+	h.callStates.put(callID, auth, &resolvedCall{SchemaIPC: data.SchemaIPC, StreamID: streamID}, h.tokenExpiry(data.CreatedAt))
 	return token, nil
 }
 
@@ -516,7 +529,10 @@ func (h *HttpServer) resolveCall(cursor *cursorTokenData, callToken []byte, auth
 	}
 
 	got := &resolvedCall{SchemaIPC: data.SchemaIPC, StreamID: data.StreamID}
-	h.callStates.put(cursor.CallID, auth, got)
+	// The entry expires with the call token it was resolved from, not a full
+	// TTL from now: otherwise a hit keeps accepting a call whose token every
+	// cache-less instance already refuses.
+	h.callStates.put(cursor.CallID, auth, got, h.tokenExpiry(data.CreatedAt))
 	return got, nil
 }
 
